@@ -652,7 +652,7 @@ func vpC35GenHistory(t *rapid.T) *vpC35History {
 			r.readBody = rapid.IntRange(0, 3).Draw(t, "readBody") == 0
 			r.removeOwn = rapid.IntRange(0, 5).Draw(t, "removeOwn") == 0
 			if rapid.IntRange(0, 5).Draw(t, "withLimit") == 0 {
-				r.limit = rapid.SampledFrom([]int{1, 5000, 64 << 20}).Draw(t, "limit")
+				r.limit = max(1, rapid.SampledFrom([]int{1, 5000, 64 << 20, len(r.body) - 1, len(r.body) - 1, len(r.body), len(r.body) + 1, len(r.body) / 2}).Draw(t, "limit")) // incl. bodies just over the limit: the form parses completely before the excess is noticed
 			}
 		} else if r.kind == "plain-post" {
 			r.wire = []byte(fmt.Sprintf("POST /%d HTTP/1.1\r\nHost: vp\r\nContent-Type: application/x-www-form-urlencoded\r\nContent-Length: 7\r\n\r\na=1&b=2", i))
@@ -797,6 +797,12 @@ func vpC35Serve(h *vpC35History, dir string) (obs []*vpC35Obs, afterClose []stri
 		sc.Close()
 	}()
 	cc.SetDeadline(time.Now().Add(60 * time.Second)) //nolint:errcheck
+	vpC35T0 := time.Now()
+	defer func() {
+		if d := time.Since(vpC35T0); d > 5*time.Second {
+			vpNote("C35: an interactive history took %v: %s", d, h)
+		}
+	}()
 	br := bufio.NewReader(cc)
 	for _, r := range h.reqs {
 		if _, err := cc.Write(r.wire); err != nil {
